@@ -6,7 +6,10 @@ package main
 
 import (
 	"encoding/json"
+	"fmt"
+	"math"
 	"reflect"
+	"strconv"
 	"strings"
 
 	"github.com/machship/mpath"
@@ -39,9 +42,9 @@ func c11CollidingObj(r *rng) *TV {
 
 func genC11(c *Ctx) {
 	r := c.R
-	c.Rule = "random documents in every carrier (including maps whose sibling keys collide under case folding and maps with interface-typed keys) with 6 data-directed queries each (all functions incl. RemoveKeysBy*, Select, AsArray, filters); each operation is evaluated 3..8 times (50 in a thorough sample) interleaved with the other operations of the document, on the data and on a deep copy; oracle: data deep-equal before/after (canonical snapshot), Sprint/structure of the operation unchanged, every answer equal to the first and to that of a freshly parsed copy. distinct = distinct (query skeleton, data shape, outcome class)"
+	c.Rule = "random documents in every carrier (including maps whose sibling keys collide under case folding and maps with interface-typed keys) with 6 data-directed queries each (all functions incl. RemoveKeysBy*, Select, AsArray, filters); each operation is evaluated 3..8 times (50 in a thorough sample) interleaved with the other operations of the document, on the data and on a deep copy; oracle: data deep-equal before/after (canonical snapshot), Sprint/structure of the operation unchanged, every answer equal to the first and to that of a freshly parsed copy; finally every kept operation is reused on a document of the same shape with other leaf values - as a separate value and written into the original document in place - and must answer like a freshly parsed copy. distinct = distinct (query skeleton, data shape, outcome class)"
 	n := c.scale(5000, 50000)
-	mutations, nondet, opchg := 0, 0, 0
+	mutations, nondet, opchg, stale := 0, 0, 0, 0
 	for i := 0; i < n; i++ {
 		var d *TV
 		if i%3 == 0 {
@@ -63,6 +66,11 @@ func genC11(c *Ctx) {
 			q := genDirected("$", d, 2)
 			if d.T == "map" && i%3 == 0 && r.Intn(2) == 0 {
 				q = r.Pick([]string{"$.a", "$.A", "$.k", "$.key", "$.KEY", "$.xs.k", "$.xs.K", "$.k.a", "$.K.A", `$.Select("$")`, "$.Sum()", `$.RemoveKeysByPrefix("a")`, `$.RemoveKeysBySuffix("s")`, "$.xs.First().k", "$.a.Equal($.A)"})
+			}
+			if aq := c11ArgQueries(d, r); len(aq) > 0 && j >= 4 {
+				// arguments that read the document ($ paths and groups as arguments): their values must be re-read on
+				// every evaluation, not remembered in the operation
+				q = aq[r.Intn(len(aq))]
 			}
 			if strings.Contains(q, "Sprintf") { // fmt verbs on arbitrary values: output is deterministic but not modelled
 				continue
@@ -121,6 +129,151 @@ func genC11(c *Ctx) {
 			mutations++
 			report("mutation", "evaluation changed the deep copy of the data", ops[0], "", cp)
 		}
+		// reuse of the kept operation on OTHER data: a document of the same shape with other leaf values, first as a
+		// separate value, then written into the original document in place (same identity, new content). The kept
+		// operation must answer like a freshly parsed copy of the query: state remembered inside an operation (or keyed by
+		// the identity of the data) shows here.
+		variant := c11Variant(d, r)
+		vdata := buildAny(variant)
+		fresh := func(q string, data any) string {
+			op, err := mpath.ParseString(q)
+			if err != nil || op == nil {
+				return "PARSE-ERR"
+			}
+			return evalOp(op, data).Line()
+		}
+		for _, e := range ops {
+			if want, got := fresh(e.q, vdata), evalOp(e.op, vdata).Line(); want != got {
+				stale++
+				report("stale-state", "the kept operation, reused on a document with other values, answers differently from a freshly parsed copy of the query", e, want, got)
+			}
+		}
+		if dv, sv := reflect.ValueOf(data), reflect.ValueOf(vdata); dv.Kind() == reflect.Map && sv.Kind() == reflect.Map && dv.Type() == sv.Type() {
+			for _, e := range ops {
+				evalOp(e.op, data) // the last document every kept operation has seen is the one that is about to change
+			}
+			for _, k := range sv.MapKeys() {
+				dv.SetMapIndex(k, sv.MapIndex(k))
+			}
+			for _, e := range ops {
+				if want, got := fresh(e.q, data), evalOp(e.op, data).Line(); want != got {
+					stale++
+					report("stale-state", "after the document was changed in place the kept operation answers differently from a freshly parsed copy of the query", e, want, got)
+				}
+			}
+		}
 	}
+	c.Extra["stale_state"] = stale
 	c.Extra["mutations"], c.Extra["nondeterministic"], c.Extra["op_changed"] = mutations, nondet, opchg
+}
+
+// c11Variant: the same shape with other leaf values (numbers shifted, booleans flipped, strings extended)
+func c11Variant(t *TV, r *rng) *TV {
+	if t == nil {
+		return nil
+	}
+	c := *t
+	switch t.T {
+	case "bool":
+		if b, ok := t.V.(bool); ok {
+			c.V = !b
+		}
+	case "f64":
+		bits, _ := strconv.ParseUint(t.V.(string), 16, 64)
+		f := math.Float64frombits(bits)
+		if f == f && f < 1e15 && f > -1e15 {
+			c.V = fmt.Sprintf("%016x", math.Float64bits(f+float64(1+r.Intn(3))))
+		}
+	case "int":
+		if i, err := strconv.ParseInt(t.V.(string), 10, 64); err == nil && i < 100 && i > -100 {
+			c.V = strconv.FormatInt(i+1, 10)
+		}
+	case "str":
+		c.V = hx(unhx(t.V.(string)) + "x")
+	case "ptr":
+		if inner, ok := t.V.(*TV); ok {
+			c.V = c11Variant(inner, r)
+		}
+	case "slice", "array":
+		xs := t.V.([]*TV)
+		ys := make([]*TV, len(xs))
+		for i, x := range xs {
+			ys[i] = c11Variant(x, r)
+		}
+		c.V = ys
+	case "map":
+		kvs := t.V.([][2]any)
+		out := make([][2]any, len(kvs))
+		for i, kv := range kvs {
+			out[i] = [2]any{kv[0], c11Variant(kv[1].(*TV), r)}
+		}
+		c.V = out
+	case "struct":
+		fs := t.V.([][3]any)
+		out := make([][3]any, len(fs))
+		for i, f := range fs {
+			out[i] = [3]any{f[0], f[1], c11Variant(f[2].(*TV), r)}
+		}
+		c.V = out
+	}
+	return &c
+}
+
+// c11ArgQueries: queries whose function arguments are `$` paths and groups over the top-level keys of the document
+func c11ArgQueries(d *TV, r *rng) []string {
+	var nums, bools, strs []string
+	add := func(k string, v *TV) {
+		for v != nil && v.T == "ptr" && v.Nil == 0 {
+			v, _ = v.V.(*TV)
+		}
+		if v == nil {
+			return
+		}
+		switch v.T {
+		case "f64", "int", "dec":
+			nums = append(nums, k)
+		case "bool":
+			bools = append(bools, k)
+		case "str":
+			strs = append(strs, k)
+		}
+	}
+	switch d.T {
+	case "map":
+		if d.KK == "iface" {
+			return nil
+		}
+		for _, kv := range d.V.([][2]any) {
+			k := unhx(kv[0].(string))
+			if k == "" || strings.ContainsAny(k, " .,()[]{}\"'?") {
+				continue
+			}
+			add(k, kv[1].(*TV))
+		}
+	case "struct":
+		for _, f := range d.V.([][3]any) {
+			add(f[0].(string), f[2].(*TV))
+		}
+	}
+	var qs []string
+	for _, n := range nums {
+		for _, m := range nums {
+			qs = append(qs, "$."+n+".Greater($."+m+")", "$."+n+".Add($."+m+")", "$."+n+".AnyOf(1,$."+m+")", "$."+n+".Equal({OR,$."+m+".Greater(1)})",
+				"$."+n+".IsNull().Equal({AND,$."+m+".Less(2)})")
+		}
+	}
+	for _, b := range bools {
+		for _, b2 := range bools {
+			qs = append(qs, "$."+b+".Equal({AND,$."+b2+"})", "$."+b+".AnyOf({OR,$."+b2+".Not()},$."+b2+")", "{AND,$."+b+",{OR,$."+b2+"}}")
+		}
+		for _, n := range nums {
+			qs = append(qs, "$."+b+".Equal({AND,$."+n+".Greater(0)})", "$."+b+".NotEqual({OR,$."+n+".Less(1.5)})")
+		}
+	}
+	for _, s1 := range strs {
+		for _, s2 := range strs {
+			qs = append(qs, "$."+s1+".Equal($."+s2+")", "$."+s1+".AnyOf(\"x\",$."+s2+")")
+		}
+	}
+	return qs
 }
